@@ -609,12 +609,15 @@ class VariantBase(productmd.common.MetadataBase):
 
         variant.validate()
         variant_id = variant_id or variant.id
-        # UIDs are unique in the whole tree ($variant-optional on top-level vs. an optional child of $variant)
+        # UIDs are unique in the whole tree ($variant-optional on top-level vs. an optional child of $variant);
+        # a variant brings its own children along
         root = getattr(self._metadata, "variants", None)
         if isinstance(root, VariantBase):
+            incoming = [variant] + variant.get_variants(recursive=True)
+            incoming_uids = set(i.uid for i in incoming)
             for other in root.get_variants(recursive=True):
-                if other is not variant and other.uid == variant.uid:
-                    raise ValueError("Variant UID already exists: %s" % variant.uid)
+                if other.uid in incoming_uids and not any(other is i for i in incoming):
+                    raise ValueError("Variant UID already exists: %s" % other.uid)
         if hasattr(self, "parent"):
             parents = self._get_all_parents()
             if variant in parents:
